@@ -16,6 +16,7 @@ VARIABLE steps
 mcvars == <<vars, steps>>
 
 OrdC10 == <<"d1", "d2", "d3", "own", "p1">>
+OrdC23 == <<"d1", "w1", "own", "x", "p1", "p2">>
 OrdC11 == <<"c1", "c2", "own", "p1", "p2">>
 Charges == {<<0, 1>>, <<1, 3>>, <<1, 1>>}
 
@@ -30,7 +31,7 @@ P1 == CHOOSE p \in Provider : TRUE
 InitC10 ==
   /\ \E D \in SUBSET Delegates, ch \in Charges, k \in BOOLEAN, ms \in MinStakes :
        \E b \in [D -> Balances] : node = (P1 :> MkSP(D, b, 0, k, ms, ch, Owner))
-  /\ prec = [p \in Provider |-> [killed |-> FALSE, shut |-> FALSE]]
+  /\ prec = [p \in Provider |-> [killed |-> FALSE, shut |-> FALSE, bad |-> FALSE]]
   /\ cbal = [c \in Client |-> 0] /\ wallet = 0
   /\ hist = [locked |-> ZeroHist, unstaked |-> ZeroHist, credited |-> ZeroHist, collected |-> ZeroHist, slashed |-> ZeroHist]
   /\ last = NoStep /\ steps = 0
@@ -43,7 +44,7 @@ SpecC10 == InitC10 /\ [][NextC10]_mcvars
 InitC11 ==
   /\ \E ch \in {<<0, 1>>, <<1, 3>>} :
        node = [p \in Provider |-> MkSP({}, <<>>, 0, FALSE, 0, ch, Owner)]
-  /\ prec = [p \in Provider |-> [killed |-> FALSE, shut |-> FALSE]]
+  /\ prec = [p \in Provider |-> [killed |-> FALSE, shut |-> FALSE, bad |-> FALSE]]
   /\ cbal = [c \in Client |-> Funds] /\ wallet = 0
   /\ hist = [locked |-> ZeroHist, unstaked |-> ZeroHist, credited |-> ZeroHist, collected |-> ZeroHist, slashed |-> ZeroHist]
   /\ last = NoStep /\ steps = 0
@@ -60,7 +61,7 @@ Wallets == Client \ {Owner}
 InitC23 ==
   /\ \E b \in [Provider -> Balances], w \in [Provider -> Wallets] :
        node = [p \in Provider |-> MkSP(Delegates, [d \in Delegates |-> b[p]], 1, FALSE, 0, <<1, 3>>, w[p])]
-  /\ prec = [p \in Provider |-> [killed |-> FALSE, shut |-> FALSE]]
+  /\ prec = [p \in Provider |-> [killed |-> FALSE, shut |-> FALSE, bad |-> FALSE]]
   /\ cbal = [c \in Client |-> 0] /\ wallet = 0
   /\ hist = [locked |-> [p \in Provider |-> [d \in Client |-> IF d \in Delegates THEN node[p].pools[d].bal ELSE 0]],
              unstaked |-> ZeroHist, credited |-> ZeroHist, collected |-> ZeroHist, slashed |-> ZeroHist]
